@@ -14,8 +14,8 @@
    generated variable the generator's scope maps it to, or in opt_data).
    Of the STATEMENT stages print / if / let / switch / foreach / for-range / css and call (all forms: data, value and
    content parameters) are proved (below), and the template wrapper with a theorem for every template of a program built
-   from these stages, and messages without plural rendered without a bundle; plural, messages from a bundle and the file level
-   are NOT: they are covered by translation validation only
+   from these stages, and messages without plural rendered without a bundle, and ONE WHOLE FILE (C04_gen_file_correct_partial,
+   at the end); plural and messages from a bundle are NOT: they are covered by translation validation only
    (go/cmd/soyverif/c04.go: every generated program is translated by the real
    soyjs.Write, run by node with soyutils.js and compared with the Go render).
    Stages kept for the record:
@@ -41,12 +41,18 @@
                                   context discharged for every program by induction on the call depth (recursion included)
      gen_correct_partial_template : the template wrapper (function header, opt_data defaulting, var output, return) and
                                   with it a theorem for every template of a program of the proved stages -- proved below
-                                  (C04_gen_correct_partial_template; the entry point Execute: C04_go_render_correct); the
-                                  FILE level (visitSoyFile: namespace declarations, the chain of counters from one template
-                                  to the next, the imports) and the reading of the emitted text as that function table by a
-                                  JavaScript engine are not part of it
+                                  (C04_gen_correct_partial_template; the entry point Execute: C04_go_render_correct)
+     gen_file_correct_partial   : the FILE level (soyjs.Write = gen_file: header comment, namespace declarations, the chain of
+                                  counters from one template to the next, no imports under the ES5 formatter) -- proved below
+                                  for a registry that is one file of the subset; the reading of the emitted text as that
+                                  function table by a JavaScript engine and the ES6 formatter are not part of it; C04_gen_registry_correct_partial
+                                  is the same for a registry of several files (calls across files), the table being the
+                                  union of the files' tables
      gen_correct_partial_msg    : {msg}..{/msg} without plural and without a bundle (raw text, print and call placeholders) -- proved
-                                  below (same step); plural, and messages rendered from a translation bundle -- not proved
+                                  below (same step); messages rendered from a translation bundle -- not proved
+     gen_correct_partial_plural : {msg}{plural v}{case z}..{default}..{/plural}{/msg} without a bundle -- proved at the end as the
+                                  same three-sided step for the NODE (the plural is not a statement of the subset's syntax
+                                  cstmt, so it is not part of the programs of the file theorem)
    MiniJS idealises JavaScript: numbers are integers (a result beyond 2^53 is
    OutOfModel), objects have no prototype chain, the operators are defined on
    the operand kinds of the subset only. *)
@@ -54,7 +60,7 @@
 From Soy Require Import Proofs.SourceTieJs Proofs.SourceTieJsScope Proofs.SourceTieJsText.
 From Soy Require Import Model.Bytes Model.Num Model.Values Model.Outcome Model.Ast Model.JsGen Model.MiniJS
   Model.Escape Model.Directives Model.Print Generated.Tables Model.Interp
-  Model.MiniJSProg Proofs.MiniJSProofs Proofs.MiniJSPrint Proofs.MiniJSStmt Proofs.MiniJSCtl Proofs.MiniJSGo Proofs.MiniJSGen Proofs.MiniJSSim Proofs.MiniJSCall.
+  Model.MiniJSProg Proofs.MiniJSProofs Proofs.MiniJSPrint Proofs.MiniJSStmt Proofs.MiniJSCtl Proofs.MiniJSGo Proofs.MiniJSGen Proofs.MiniJSSim Proofs.MiniJSCall Proofs.MiniJSFile Proofs.MiniJSPlural.
 Open Scope N_scope.
 
 (* the Soy meaning restricted to the subset IS the walker of Interp.v, and the
@@ -562,7 +568,7 @@ Proof. exact c04_jprog_chain_ok. Qed.
 Theorem C04_gen_templates : forall o, cn_ok o -> o_msgs o = None -> forall nsae F p n st bf,
   (forall t, In t p -> ct_ns_ae t = nsae /\ (S (S (bdepth (ct_body t))) < F)%nat /\ bwf [] (ct_body t) = true) ->
   shape st 0 bf nsae [[]] n ->
-  exists bf' n', gres (jwalk_list (jwalk o F) (flat_map c04_doc_nodes p)) st (c04_file_chunks o p n) 0 bf' nsae [[]] n'.
+  exists bf' n', gres o (jwalk_list (jwalk o F) (flat_map c04_doc_nodes p)) st (c04_file_chunks o p n) 0 bf' nsae [[]] n'.
 Proof. exact gen_templates. Qed.
 Print Assumptions C04_gen_templates.
 
@@ -583,19 +589,19 @@ Theorem C04_gen_correct_partial_template : forall cf o p cnt,
         c04_jcall (c04_jprog p cnt) k name jd ijv = Ok text)
   /\ (forall F st bf, (S (bdepth (ct_body t)) < F)%nat -> bwf [] (ct_body t) = true ->
         shape st 0 bf (ct_ns_ae t) [[]] (cnt name) -> c04_allopt (j_cur st) = ct_allopt t ->
-        gres (jwalk o F (t_node (c04_template t))) st
+        gres o (jwalk o F (t_node (c04_template t))) st
              (c04_tprint (template_header_line o name) (ct_allopt t) (c04_jbody t (cnt name))) 0 t_output (ct_ns_ae t) [[]]
              (snd (bgen (ct_mode t) t_output c04_body_scope (cnt name) (ct_body t)))).
 Proof. exact gen_correct_partial_template. Qed.
 Print Assumptions C04_gen_correct_partial_template.
 
 (* the entry point: Renderer.Execute (Model/Interp.v's render) of a template of the program, data a map of core values,
-   no write budget: Ok, and the Write calls concatenate to the text of the subset semantics *)
+   no write budget: Ok, and the Write calls concatenate to the text of the subset semantics (also when Execute's entry
+   mode "on" differs from the mode "unspecified" a call and the generator use: both escape) *)
 Theorem C04_go_render_correct : forall cf p,
   c_oblig cf = [] -> (forall x, c_ij cf = Some x -> core_value x = true) -> r_templates (c_reg cf) = c04_templates p ->
   forall k name t data_id data first_id text fuel,
   c04_find p name = Some t ->
-  template_mode (entry_mode (ct_ns_ae t)) (ct_ae t) = ct_mode t ->
   forallb (fun kv => core_value (snd kv)) data = true ->
   c04_tout (c_ij cf) go_print_text p (S k) name (fun q => assoc_s q data) = Some text ->
   (S k * c04_D p <= fuel)%nat ->
@@ -647,3 +653,250 @@ ns.main = function(opt_data, opt_sb, opt_ijData) {
 };
 ".
 Proof. vm_compute. repeat split; reflexivity. Qed.
+
+(* ================================================================== *)
+(* one whole file *)
+
+(* soyjs.Write on a file of the subset (Model/JsGen.v gen_file; a namespace declaration, then per template its soydoc
+   comment and the template): Ok, and the chunks are EXACTLY
+     // This file was automatically generated from <name>.   // Please don't edit this file by hand.   <blank line>
+     one line  if (typeof a.b == 'undefined') { [var ]a.b = {}; }  per dotted prefix of the namespace,
+     the printed function table c04_jprog_chain p 0 (c04_table_chunks: per template the blank line, the header line,
+     [opt_data = opt_data || {};] var output = ''; the printed MiniJS block of its body generated from the counter the
+     previous template left, return output; and the closing line),
+   and NO import line: the formatter writes none (c04_imp_free: the ES5 formatter's Call and Directive methods return an
+   empty import; proved from the regenerated formatter tables by C04_imp_free_es5), and every statement of every
+   template leaves the generator's import table as it was (the frame conjunct of gres). *)
+Theorem C04_gen_file_chunks : forall o, cn_ok o -> o_msgs o = None -> forall fname ns nsae F p, c04_imp_free o ->
+  (forall t, In t p -> ct_ns_ae t = nsae /\ (S (S (bdepth (ct_body t))) < F)%nat /\ bwf [] (ct_body t) = true) ->
+  (0 < F)%nat ->
+  gen_file o F fname (c04_file_nodes ns nsae p)
+  = Ok (c04_file_header fname ++ c04_ns_lines ns ++ c04_table_chunks o (c04_jprog_chain p 0)).
+Proof. exact gen_file_chunks. Qed.
+Print Assumptions C04_gen_file_chunks.
+Theorem C04_imp_free_es5 : forall o, o_fmt o = ES5 -> c04_imp_free o.
+Proof. exact c04_imp_free_es5. Qed.
+
+(* FULL STATEMENT:  gen_correct : forall b t data ij, check b = Ok -> in_core b data -> js_run (gen b) t data ij = render_impl b t data ij.
+   PROVED (partial): for every registry whose templates are those of one file of the subset, every budget F above the
+   nesting of the bodies, the ES5 formatter and no translation bundle:
+     (Gen) gen_file answers Ok with header, namespace declarations and the printed function table jp = c04_jprog_chain p 0;
+     and for every template of the file, every data map of core values (no floats, integers within 2^53) and every
+     call depth k for which the subset semantics c04_tout gives a text (that is the subset condition on the run: every
+     printed value is a printable scalar, every call names a template of the file, ...):
+     (Go)  Renderer.Execute (Model/Interp.v render, tied to soyhtml by C02) is Ok and its Write calls concatenate to text;
+     (JS)  the MiniJS call of that template's function of jp, with any object that holds the same data (in particular
+           to_js of the data map when its keys are identifiers) and the same injected data, returns text.
+   NOT PROVED / outside: (a) the ES6 formatter (cn_ok and c04_imp_free fail: a call is renamed by ES6Identifier and
+   imported); (b) the step from the emitted text to a function table in a real engine -- parsing the printed functions,
+   the namespace objects, soyutils.js --: node correspondence of the harness (MiniJS-vs-V8); (c) {msg} with {plural} and
+   messages rendered from a bundle (soyjs evalMsgParts): C11_three_sided_translation_partial covers bundle messages of
+   plain items relative to C04's step, not composed here; (d) a registry of several files: see
+   C04_gen_registry_correct_partial below.  (Execute enters a template of a namespace without an autoescape attribute in
+   mode "on" while a call -- and the generator -- use "unspecified": the subset semantics is the same for both, bout_mode01.) *)
+Theorem C04_gen_file_correct_partial : forall cf o fname ns nsae p F,
+  c_oblig cf = [] -> (forall x, c_ij cf = Some x -> core_value x = true) -> r_templates (c_reg cf) = c04_templates p ->
+  cn_ok o -> c04_imp_free o -> o_msgs o = None ->
+  (forall t, In t p -> ct_ns_ae t = nsae /\ (S (S (bdepth (ct_body t))) < F)%nat /\ bwf [] (ct_body t) = true) ->
+  (0 < F)%nat ->
+  let jp := c04_jprog_chain p 0 in
+  gen_file o F fname (c04_file_nodes ns nsae p) = Ok (c04_file_header fname ++ c04_ns_lines ns ++ c04_table_chunks o jp)
+  /\ forall k name t data_id data first_id text fuel,
+       c04_find p name = Some t ->
+       forallb (fun kv => core_value (snd kv)) data = true ->
+       c04_tout (c_ij cf) go_print_text p (S k) name (fun q => assoc_s q data) = Some text ->
+       (S k * c04_D p <= fuel)%nat ->
+       (let r := render cf fuel name data_id data None None first_id in
+        rr_outcome r = Ok tt /\ concat_b (rr_writes r) = text)
+       /\ (forall jd ijv, datarel (fun q => assoc_s q data) jd -> (forall v, c_ij cf = Some v -> ijv = to_js v) ->
+             c04_jcall jp (S k) name jd ijv = Ok text)
+       /\ (forallb (fun kv => is_ident (fst kv)) data = true -> forall ijv, (forall v, c_ij cf = Some v -> ijv = to_js v) ->
+             c04_jcall jp (S k) name (to_js (VMap data_id data)) ijv = Ok text).
+Proof. exact gen_file_correct_partial. Qed.
+Print Assumptions C04_gen_file_correct_partial.
+
+(* the same for a registry of SEVERAL files (fs: per file its name, namespace, autoescape mode and templates): every
+   file's generated text is header + namespace declarations + its own printed function table (each file from counter 0:
+   soyjs.Write makes a new scope per file), and in the UNION of the tables -- what an engine holds after loading every
+   generated file -- the function of every template returns what Renderer.Execute writes, calls across files included
+   (same hypotheses, same limits (a) (b) (c)). *)
+Theorem C04_gen_registry_correct_partial : forall cf o fs F,
+  c_oblig cf = [] -> (forall x, c_ij cf = Some x -> core_value x = true) -> r_templates (c_reg cf) = c04_templates (c04_all_tmpls fs) ->
+  cn_ok o -> c04_imp_free o -> o_msgs o = None ->
+  (forall f, In f fs -> forall t, In t (cfl_tmpls f) -> ct_ns_ae t = cfl_ae f /\ (S (S (bdepth (ct_body t))) < F)%nat /\ bwf [] (ct_body t) = true) ->
+  (0 < F)%nat ->
+  let p := c04_all_tmpls fs in
+  let jp := c04_all_jprog fs in
+  (forall f, In f fs ->
+     gen_file o F (cfl_name f) (c04_file_nodes (cfl_ns f) (cfl_ae f) (cfl_tmpls f))
+     = Ok (c04_file_header (cfl_name f) ++ c04_ns_lines (cfl_ns f) ++ c04_table_chunks o (c04_jprog_chain (cfl_tmpls f) 0)))
+  /\ forall k name t data_id data first_id text fuel,
+       c04_find p name = Some t ->
+       forallb (fun kv => core_value (snd kv)) data = true ->
+       c04_tout (c_ij cf) go_print_text p (S k) name (fun q => assoc_s q data) = Some text ->
+       (S k * c04_D p <= fuel)%nat ->
+       (let r := render cf fuel name data_id data None None first_id in
+        rr_outcome r = Ok tt /\ concat_b (rr_writes r) = text)
+       /\ (forall jd ijv, datarel (fun q => assoc_s q data) jd -> (forall v, c_ij cf = Some v -> ijv = to_js v) ->
+             c04_jcall jp (S k) name jd ijv = Ok text)
+       /\ (forallb (fun kv => is_ident (fst kv)) data = true -> forall ijv, (forall v, c_ij cf = Some v -> ijv = to_js v) ->
+             c04_jcall jp (S k) name (to_js (VMap data_id data)) ijv = Ok text).
+Proof. exact gen_registry_correct_partial. Qed.
+Print Assumptions C04_gen_registry_correct_partial.
+
+(* non-vacuity: the two templates of C04_call_nonvacuous as the file ex.soy with {namespace ns}: every hypothesis of the
+   theorem holds of it, and gen_file's chunks render to the file soyjs.Write produces *)
+Definition ex_opts : jopts := {| o_fmt := ES5; o_msgs := None; o_order := fun l => l |}.
+Example C04_file_nonvacuous :
+  (cn_ok ex_opts /\ c04_imp_free ex_opts /\ o_msgs ex_opts = None)
+  /\ (forall t, In t ex_prog -> ct_ns_ae t = 1 /\ (S (S (bdepth (ct_body t))) < 12)%nat /\ bwf [] (ct_body t) = true)
+  /\ r_templates (c_reg ex_cf) = c04_templates ex_prog
+  /\ (match gen_file ex_opts 12 (b "ex.soy") (c04_file_nodes (b "ns") 1 ex_prog) with
+      | Ok cs => Some (render_chunks is_print_tbl cs) | _ => None end) = Some (b
+"// This file was automatically generated from ex.soy.
+// Please don't edit this file by hand.
+
+if (typeof ns == 'undefined') { var ns = {}; }
+
+ns.main = function(opt_data, opt_sb, opt_ijData) {
+  var output = '';
+  output += soy.$$escapeHtml(opt_data.x);
+  output += '[';
+  var param_1 = '';
+  param_1 += '\u003C';
+  param_1 += soy.$$escapeHtml(opt_data.x);
+  output += ns.item(soy.$$augmentMap(opt_data, {y: ((opt_data.x) + (1)), z: param_1}), opt_sb, opt_ijData);
+  output += ']';
+  if (opt_data.next) {
+    output += ns.main(opt_data.next, opt_sb, opt_ijData);
+  }
+  return output;
+};
+
+ns.item = function(opt_data, opt_sb, opt_ijData) {
+  var output = '';
+  output += soy.$$escapeHtml(opt_data.x);
+  output += '-';
+  output += soy.$$escapeHtml(opt_data.y);
+  output += opt_data.z;
+  return output;
+};
+").
+Proof.
+  split; [split; [intro name; apply app_nil_r|split; [apply c04_imp_free_es5; reflexivity|reflexivity]]|].
+  split; [intros t [<-|[<-|[]]]; (split; [reflexivity|split; [apply Nat.ltb_lt; reflexivity|reflexivity]])|].
+  split; [reflexivity|]. vm_compute. reflexivity.
+Qed.
+
+(* ================================================================== *)
+(* a message whose child is a {plural}, rendered without a bundle *)
+
+(* {msg desc=".."}{plural v}{case z1}b1..{case zk}bk{default}d{/plural}{/msg}, bodies of raw text and print / call placeholders
+   (msg_ok), v an expression of the subset whose value is an integer i (any other value is an error of the Go renderer and
+   outside the statement): the same simulation step as the other stages, for the node c04_plural_node.
+   (Go)  soyhtml walkPlural renders the first case whose number equals i, else the default (c04_plpick): the walker writes
+         exactly the text of that body;
+   (JS)  the MiniJS statement  switch (v) { case z1: jb1 break; .. default: jd break; }  (JSSwitch over JENum cases, the blocks
+         generated one after the other from the generator's counter: c04_plgen) appends exactly that text;
+   (Gen) walking the node in Model/JsGen.v (visitMsgNode / walkPlural without a bundle) emits exactly c04_plprint: that
+         switch WITHOUT the "break;" after the default clause -- C04_plural_text_vs_sprint: the printed form of the MiniJS
+         statement is the emitted text with that one line added (last clause: no effect);
+   and the resulting states are related by sim again, with the generator's scope unchanged and its counter behind the last body.
+   NOT part of it: the plural inside a program of Model/MiniJSProg.v (cstmt has no constructor for it: the file theorem
+   does not cover templates with plural messages), nested plurals, plural with a bundle (soy.$$pluralIndex cases). *)
+Theorem C04_gen_correct_partial_plural : forall cf o cc lv, c_oblig cf = [] -> callctx_ok cf o cc ->
+  forall pname v cs d D st je jst fuel i text env' old,
+  sim cf cc st je jst old ->
+  (cdepth v < D)%nat -> cwf lv v = true ->
+  (forall zb, In zb cs -> msg_ok (snd zb) = true /\ bwf lv (snd zb) = true /\ (bdepth (snd zb) <= D)%nat) ->
+  msg_ok d = true -> bwf lv d = true -> (bdepth d <= D)%nat ->
+  (cc_fuel cc + S (S (S D)) < fuel)%nat -> lvok lv (j_scope jst) ->
+  ceval (c_ij cf) (sc_lookup (ctx st)) v = Some (VInt i) ->
+  sout (c_ij cf) (mode st) go_print_text (cc_denv cc) (cc_callee cc) (sc_lookup (ctx st)) (SMsg (c04_plpick i cs d)) = Some (text, env') ->
+  forall jcs n1 jd n2,
+  c04_plgen (mode st) (j_buf jst) (j_scope jst) (j_n jst) cs = (jcs, n1) -> bgen (mode st) (j_buf jst) (j_scope jst) n1 d = (jd, n2) ->
+  let nd := c04_plural_node pname v cs d in
+  let j := JSSwitch (cgen (j_scope jst) v) (c04_plk jcs jd) in
+  exists st' ws rv je' jst',
+    walk cf fuel nd st = (Ok rv, st') /\ wrote st st' ws /\ concat_b ws = text
+    /\ mode st' = mode st /\ tl (ctx st') = tl (ctx st) /\ (forall k, sc_lookup (ctx st') k = env' k)
+    /\ js_exec (cc_jfn cc) je j = Ok je' /\ je_data je' = je_data je
+    /\ jwalk o fuel nd jst = Ok (tt, jst') /\ j_out jst' = rev (c04_plprint (j_indent jst) (cgen (j_scope jst) v) jcs jd) ++ j_out jst
+    /\ j_indent jst' = j_indent jst /\ j_buf jst' = j_buf jst /\ j_scope jst' = j_scope jst /\ j_n jst' = n2
+    /\ sim cf cc st' je' jst' (old ++ text) /\ lvok lv (j_scope jst').
+Proof. exact gen_correct_partial_plural. Qed.
+Print Assumptions C04_gen_correct_partial_plural.
+Theorem C04_plural_text_vs_sprint : forall ind jv jcs jd,
+  sprint ind (JSSwitch jv (c04_plk jcs jd))
+  = sp_ind ind ++ [CText t_switch_open] ++ jprint jv ++ [CText t_for_close; CText t_nl]
+    ++ c04_plprint_cases (S ind) jcs
+    ++ (sp_ind (S ind) ++ [CText t_default] ++ [CText t_nl]) ++ bprint (S (S ind)) jd
+    ++ (sp_ind (S (S ind)) ++ [CText t_break] ++ [CText t_nl])
+    ++ (sp_ind ind ++ [CText t_rbrace] ++ [CText t_nl]).
+Proof. exact c04_plprint_sprint. Qed.
+
+(* non-vacuity: {msg desc=""}{plural $x}{case 1}one{case 4}four: {$x}{default}{$a.b} items{/plural}{/msg} with x = 4, a.b = 5 *)
+Definition ex_pl_cases : list (Z * cblk) :=
+  [(1%Z, BCons (SRaw (b "one")) BNil); (4%Z, BCons (SRaw (b "four: ")) (BCons (SPrint (CVar (b "x") []) []) BNil))].
+Definition ex_pl_dflt : cblk := BCons (SPrint (CVar (b "a") [CAKey false (b "b")]) []) (BCons (SRaw (b " items")) BNil).
+Definition ex_pl_tmpl : template :=
+  {| t_name := b "ns.pl"; t_node := NTemplate 0 (b "ns.pl") (NList 0 [c04_plural_node (b "x") (CVar (b "x") []) ex_pl_cases ex_pl_dflt]) 0 false;
+     t_ns_name := []; t_ns_autoescape := 1; t_params := []; t_file := [] |}.
+Example C04_plural_nonvacuous :
+  ceval None ex_env (CVar (b "x") []) = Some (VInt 4)
+  /\ (match sout None 1 go_print_text (fun _ => None) (fun _ _ => None) ex_env (SMsg (c04_plpick 4 ex_pl_cases ex_pl_dflt)) with Some (t, _) => Some t | None => None end) = Some (b "four: 4")
+  /\ (let r := render {| c_reg := {| r_templates := [ex_pl_tmpl]; r_sources := []; r_files := [] |}; c_ij := None; c_oblig := []; c_msgs := None |}
+                      40 (b "ns.pl") 1 [(b "a", VMap 2 [(b "b", VInt 5)]); (b "x", VInt 4)] None None 10 in
+       (rr_outcome r, concat_b (rr_writes r))) = (Ok tt, b "four: 4")
+  /\ (let '(jcs, n1) := c04_plgen 1 (b "output") [[]] 3 ex_pl_cases in
+      let '(jd, _) := bgen 1 (b "output") [[]] n1 ex_pl_dflt in
+      (match js_exec (fun _ _ _ => OutOfModel) {| je_vars := [(b "output", JStr [])]; je_data := JObj [(b "a", JObj [(b "b", JNum 5)]); (b "x", JNum 4)] |}
+                     (JSSwitch (cgen [[]] (CVar (b "x") [])) (c04_plk jcs jd)) with Ok je' => Some (je_vars je') | _ => None end,
+       render_chunks is_print_tbl (c04_plprint 1 (cgen [[]] (CVar (b "x") [])) jcs jd)))
+     = (Some [(b "output", JStr (b "four: 4"))], b
+"  switch (opt_data.x) {
+    case 1:
+      output += 'one';
+      break;
+    case 4:
+      output += 'four: ';
+      output += soy.$$escapeHtml(opt_data.x);
+      break;
+    default:
+      output += soy.$$escapeHtml(opt_data.a.b);
+      output += ' items';
+  }
+").
+Proof. vm_compute. repeat split; reflexivity. Qed.
+
+(* non-vacuity of the registry theorem: the two templates in two files (main.soy, item.soy), the call from ns.main to
+   ns.item crossing the files; each file's table starts from counter 0 *)
+Definition ex_files : list c04_file :=
+  [{| cfl_name := b "main.soy"; cfl_ns := b "ns"; cfl_ae := 1; cfl_tmpls := [ex_main] |};
+   {| cfl_name := b "item.soy"; cfl_ns := b "ns"; cfl_ae := 1; cfl_tmpls := [ex_item] |}].
+Example C04_registry_nonvacuous :
+  c04_all_tmpls ex_files = ex_prog
+  /\ (forall f, In f ex_files -> forall t, In t (cfl_tmpls f) -> ct_ns_ae t = cfl_ae f /\ (S (S (bdepth (ct_body t))) < 12)%nat /\ bwf [] (ct_body t) = true)
+  /\ map fst (c04_all_jprog ex_files) = [b "ns.main"; b "ns.item"]
+  /\ c04_jcall (c04_all_jprog ex_files) 3 (b "ns.main") (to_js (VMap 1 ex_data)) JUndef = Ok (b "4[4-5<4]7[7-8<7]")
+  /\ (match gen_file ex_opts 12 (b "item.soy") (c04_file_nodes (b "ns") 1 [ex_item]) with
+      | Ok cs => Some (render_chunks is_print_tbl cs) | _ => None end) = Some (b
+"// This file was automatically generated from item.soy.
+// Please don't edit this file by hand.
+
+if (typeof ns == 'undefined') { var ns = {}; }
+
+ns.item = function(opt_data, opt_sb, opt_ijData) {
+  var output = '';
+  output += soy.$$escapeHtml(opt_data.x);
+  output += '-';
+  output += soy.$$escapeHtml(opt_data.y);
+  output += opt_data.z;
+  return output;
+};
+").
+Proof.
+  split; [reflexivity|].
+  split; [intros f [<-|[<-|[]]] t [<-|[]]; (split; [reflexivity|split; [apply Nat.ltb_lt; reflexivity|reflexivity]])|].
+  vm_compute. repeat split; reflexivity.
+Qed.
